@@ -1,6 +1,6 @@
 """C19 — geometric kernels agree with their definitions: three algebraic/structural clauses only."""
 from .. import facts, run
-from ..rules import kernels, loop, pure
+from ..rules import kernels, footprint, loop, pure
 
 
 def main(tier):
@@ -8,10 +8,12 @@ def main(tier):
     P = facts.load("release")
     rep.analysed["tree_hash"] = P.tree_hash
     kernels.bezier_algebra(P, rep)
+    kernels.bezier_record(P, rep)
     kernels.acos_clamp(P, rep)
     kernels.kd_structure(P, rep)
     kernels.conversion_roundtrip(P, rep)
     kernels.point_kernels(P, rep)
+    footprint.polygon_boundary(P, rep)
     rep.assumptions.append("nearest-ness of the kd search result, polygon exactness, Newton convergence are NOT decided (numeric); the conversion round trip is decided "
                            "as an algebraic identity only (no rounding)")
     rep.explanation = ("Computer-algebra identity between the closest-point search's cubic coefficients and the Bernstein form evaluated by "
